@@ -3,7 +3,7 @@
 
    A PROGRAM is data: a sequence of bodies (instruction lists); body 1 of a thread is its main function.
    Instructions:
-     [op |-> "prim", p, a]            r := p(refs a)          p in {"add","mul","neg","nd","bomb","user"}
+     [op |-> "prim", p, a]            r := p(refs a)          p in {"add","mul","neg","take","nd","bomb","user"}
      [op |-> "diff", mode, b, at, seed]  r := derivative of body b (one parameter) at value `at`,
                                          applied to `seed`   (mode "vjp": make_vjp(f)(at)[0](seed);
                                                               mode "jvp": make_jvp(f)(at)(seed)[1])
@@ -65,6 +65,7 @@ ProdSeq(xs) == ProdSeqFrom(xs, 1)
 Raw(p, xs) == CASE p = "add" -> xs[1] + xs[2]
                 [] p = "mul" -> xs[1] * xs[2]
                 [] p = "neg" -> 0 - xs[1]
+                [] p = "take" -> xs[1]          \* x[idx] with idx selecting every entry once (the indexing primitive, value-wise the identity)
                 [] p = "nd"  -> xs[1]
                 [] p = "bomb" -> xs[1]
                 [] p = "user" -> prog.uscale * ProdSeq(xs)
@@ -126,6 +127,7 @@ JvpRule(p, argnum, g, ans, args, h) ==
   CASE p = "add" -> Res(g, h)
     [] p = "mul" -> Apply("mul", [args EXCEPT ![argnum] = g], h)
     [] p = "neg" -> Apply("neg", <<g>>, h)
+    [] p = "take" -> Apply("take", <<g>>, h)          \* 'same' rule: the tangent is indexed the same way
     [] p = "bomb" -> Exc(h)
     [] p = "user" -> CASE prog.utable[argnum] = "rule" -> UserRule(argnum, g, args, h, 1)
                        [] prog.utable[argnum] = "zero" -> Res(P(0), h)
@@ -145,6 +147,9 @@ VjpRule(p, argnum, g, ans, args, h) ==
   CASE p = "add" -> Res(g, h)
     [] p = "mul" -> Apply("mul", <<args[3 - argnum], g>>, h)
     [] p = "neg" -> Apply("neg", <<g>>, h)
+    \* untake(g, idx): a primitive applied to g with rules of its own (the scatter is deferred - a SparseObject - but as a function of g
+    \* it is the identity here); how the deferred scatter is accumulated is RevImpl's business, not the machine's
+    [] p = "take" -> Apply("take", <<g>>, h)
     [] p = "bomb" -> Exc(h)
     [] p = "user" -> CASE prog.utable[argnum] = "rule" -> UserRule(argnum, g, args, h, 1)
                        [] prog.utable[argnum] = "zero" -> Res(P(0), h)
